@@ -758,6 +758,81 @@ def check_fixed_point(tier, out):
 
 
 
+
+# =============================================================== C11: modifiers change only their own component
+
+def check_modifiers(tier, out):
+    """every with_* modifier, origin() and relative() applied to a corpus of URLs: all components
+    other than the one named are exactly as before (explicit port, userinfo, host, path, query,
+    fragment, scheme), and the named one reads back"""
+    from yarl import URL
+    urls = []
+    for scheme in ("http", "https", "x"):
+        for ui in ("", "u@", "u:p@", "%41:%3a@"):
+            for host in ("h", "example.com", "[::1]", "127.0.0.1", "xn--e1afmkfd.xn--p1ai"):
+                for port in ("", ":80", ":8080", ":0", ":65535"):
+                    for path in ("", "/", "/a/b.c", "/a%2Fb/"):
+                        for qf in ("", "?q=1", "#f", "?a=b&c=d#frag"):
+                            urls.append(f"{scheme}://{ui}{host}{port}{path}{qf}")
+    fields = ("scheme", "raw_user", "raw_password", "raw_host", "explicit_port", "raw_path", "raw_query_string", "raw_fragment")
+
+    def view(u):
+        d = {f: getattr(u, f) for f in fields}
+        d["raw_path"] = u._val[2]        # the stored path (the accessor shows '/' for an empty path under an authority)
+        return d
+    mods = (
+        ("with_scheme('https')", lambda u: u.with_scheme("https"), {"scheme"}, lambda v: v["scheme"] == "https"),
+        ("with_user('new user')", lambda u: u.with_user("new user"), {"raw_user"}, lambda v: v["raw_user"] == "new%20user"),
+        ("with_user(None)", lambda u: u.with_user(None), {"raw_user", "raw_password"}, lambda v: v["raw_user"] is None and v["raw_password"] is None),
+        ("with_password('p w')", lambda u: u.with_password("p w"), {"raw_password"}, lambda v: v["raw_password"] == "p%20w"),
+        ("with_password(None)", lambda u: u.with_password(None), {"raw_password"}, lambda v: v["raw_password"] is None),
+        ("with_host('EXAMPLE.org')", lambda u: u.with_host("EXAMPLE.org"), {"raw_host"}, lambda v: v["raw_host"] == "example.org"),
+        ("with_host('::2')", lambda u: u.with_host("::2"), {"raw_host"}, lambda v: v["raw_host"] == "::2"),
+        ("with_port(8443)", lambda u: u.with_port(8443), {"explicit_port"}, lambda v: v["explicit_port"] == 8443),
+        ("with_port(65535)", lambda u: u.with_port(65535), {"explicit_port"}, lambda v: v["explicit_port"] == 65535),
+        ("with_port(0)", lambda u: u.with_port(0), {"explicit_port"}, lambda v: v["explicit_port"] == 0),
+        ("with_port(None)", lambda u: u.with_port(None), {"explicit_port"}, lambda v: v["explicit_port"] is None),
+        ("with_path('/x y')", lambda u: u.with_path("/x y"), {"raw_path", "raw_query_string", "raw_fragment"},
+         lambda v: v["raw_path"] == "/x%20y" and v["raw_query_string"] == "" and v["raw_fragment"] == ""),
+        ("with_path('/x', keep_query=True, keep_fragment=True)", lambda u: u.with_path("/x", keep_query=True, keep_fragment=True),
+         {"raw_path"}, lambda v: v["raw_path"] == "/x"),
+        ("with_query('k=v w')", lambda u: u.with_query("k=v w"), {"raw_query_string"}, lambda v: v["raw_query_string"] == "k=v+w"),
+        ("with_query(None)", lambda u: u.with_query(None), {"raw_query_string"}, lambda v: v["raw_query_string"] == ""),
+        ("with_fragment('a b')", lambda u: u.with_fragment("a b"), {"raw_fragment"}, lambda v: v["raw_fragment"] == "a%20b"),
+        ("with_fragment(None)", lambda u: u.with_fragment(None), {"raw_fragment"}, lambda v: v["raw_fragment"] == ""),
+        ("with_name('n m')", lambda u: u.with_name("n m"), {"raw_path", "raw_query_string", "raw_fragment"},
+         lambda v: v["raw_path"].endswith("/n%20m") and v["raw_query_string"] == "" and v["raw_fragment"] == ""),
+        ("with_suffix('.t')", lambda u: u.with_suffix(".t"), {"raw_path", "raw_query_string", "raw_fragment"},
+         lambda v: v["raw_path"].endswith(".t") and v["raw_query_string"] == ""),
+        ("origin()", lambda u: u.origin(), {"raw_user", "raw_password", "raw_path", "raw_query_string", "raw_fragment"},
+         lambda v: v["raw_user"] is None and v["raw_password"] is None and v["raw_path"] == "" and v["raw_query_string"] == "" and v["raw_fragment"] == ""),
+        ("relative()", lambda u: u.relative(), {"scheme", "raw_user", "raw_password", "raw_host", "explicit_port"},
+         lambda v: v["scheme"] == "" and v["raw_host"] is None and v["explicit_port"] is None),
+    )
+    for s in urls:
+        if not out.mine():
+            continue
+        try:
+            u = URL(s)
+        except ValueError:
+            continue
+        before = view(u)
+        out.note(before["raw_user"] is not None or before["explicit_port"] is not None, {"url": s, "view": {k: before[k] for k in fields}})
+        for name, fn, may_change, reads_back in mods:
+            try:
+                w = fn(u)
+            except (ValueError, TypeError):
+                continue
+            after = view(w)
+            changed = {f for f in fields if after[f] != before[f]}
+            inp = {"url": s, "modifier": name}
+            if not changed <= may_change:
+                out.fail("a modifier changed a component other than its own", inp, {f: (before[f], after[f]) for f in sorted(changed - may_change)}, "unchanged")
+            elif not reads_back(after):
+                out.fail("the modified component does not read back", inp, {f: after[f] for f in sorted(may_change)}, name)
+        if out.full:
+            return
+
 # =============================================================== C12: query algebra
 
 def _pairs(u):
@@ -1024,7 +1099,7 @@ def _build_case(URL, args, out):
             out.fail("build(port=p): the explicit port is not p (C17)", inp, (u.explicit_port, str(u)), want)
 
 
-CHECKS = {"conformance_parse": check_conformance_parse, "conformance_path": check_conformance_path,
+CHECKS = {"modifiers": check_modifiers, "conformance_parse": check_conformance_parse, "conformance_path": check_conformance_path,
           "conformance_host": check_conformance_host, "build": check_build, "query_algebra": check_query_algebra, "join": check_join, "path_algebra": check_path_algebra, "decode": check_decode, "human_repr": check_human_repr,
           "fixed_point": check_fixed_point}
 
